@@ -57,6 +57,16 @@ structure MapState where
   advancedPosition : Nat
   seenAdvanced : Bool
 
+/-- body of the loop over the normalised index in `_get_index_mapping` -/
+def mapStep (isAdvanced : Ix → Bool) (st : MapState) (ind : Ix) : MapState :=
+  match ind with
+  | .none => { st with mapping := st.mapping ++ [none] }
+  | ind =>
+    let st := if isAdvanced ind && !st.seenAdvanced
+              then { st with advancedPosition := st.mapping.length, seenAdvanced := true } else st
+    let st := if ind == Ix.slice then { st with mapping := st.mapping ++ [some st.axis] } else st
+    { st with axis := st.axis + 1 }
+
 /-- `Tensor._get_index_mapping(index)` : for each axis of the result the source axis (`none` = new / collection axis) -/
 def indexMapping (rank : Nat) (index : List Ix) : Option (List (Option Nat)) :=
   let expanded := expandMasks index
@@ -68,15 +78,7 @@ def indexMapping (rank : Nat) (index : List Ix) : Option (List (Option Nat)) :=
   match normalizeIndex rank expanded with
   | none => none
   | some norm =>
-    let st := norm.foldl (fun (st : MapState) ind =>
-      match ind with
-      | .none => { st with mapping := st.mapping ++ [none] }
-      | ind =>
-        let st := if isAdvanced ind && !st.seenAdvanced
-                  then { st with advancedPosition := st.mapping.length, seenAdvanced := true } else st
-        let st := if ind == Ix.slice then { st with mapping := st.mapping ++ [some st.axis] } else st
-        { st with axis := st.axis + 1 })
-      ⟨[], 0, 0, false⟩
+    let st := norm.foldl (mapStep isAdvanced) ⟨[], 0, 0, false⟩
     if !st.seenAdvanced then some st.mapping else
     -- b = np.broadcast(*advanced indices)
     let bnd := ((norm.filter isAdvanced).map Ix.bcastNdim).foldl max 0
@@ -85,16 +87,31 @@ def indexMapping (rank : Nat) (index : List Ix) : Option (List (Option Nat)) :=
 
 /-! ### NumPy reference semantics -/
 
+/-- number of array axes a component consumes in NumPy -/
+def Ix.npConsumed : Ix → Nat
+  | .ellipsis => 0 | .none => 0 | .mask k => k | _ => 1
+
 /-- expand the ellipsis / pad with slices (NumPy: every component consumes its axes; a k-dim mask consumes k) -/
 def npExpand (rank : Nat) (index : List Ix) : Option (List Ix) :=
-  let consumed := (index.map fun i => match i with
-    | .ellipsis => 0 | .none => 0 | .mask k => k | _ => 1).foldl (· + ·) 0
+  let consumed := (index.map Ix.npConsumed).foldl (· + ·) 0
   if consumed > rank then none else
   if (index.filter Ix.isEllipsis).length > 1 then none else
   let fill := List.replicate (rank - consumed) Ix.slice
   match index.findIdx? Ix.isEllipsis with
   | some loc => some (index.take loc ++ fill ++ index.drop (loc + 1))
   | none => some (index ++ fill)
+
+/-- one component of the expanded index: (result axes so far, next source axis, broadcast block already placed) -/
+def npStep (hasArr adjacent : Bool) (bnd : Nat) (st : List (Option Nat) × Nat × Bool) (c : Ix) : List (Option Nat) × Nat × Bool :=
+  match c with
+  | .slice => (st.1 ++ [some st.2.1], st.2.1 + 1, st.2.2)
+  | .none => (st.1 ++ [none], st.2.1, st.2.2)
+  | .int => if hasArr then
+              (if adjacent && !st.2.2 then (st.1 ++ List.replicate bnd none, st.2.1 + 1, true) else (st.1, st.2.1 + 1, st.2.2))
+            else (st.1, st.2.1 + 1, st.2.2)
+  | .arr _ _ => if adjacent && !st.2.2 then (st.1 ++ List.replicate bnd none, st.2.1 + 1, true) else (st.1, st.2.1 + 1, st.2.2)
+  | .mask k => if adjacent && !st.2.2 then (st.1 ++ List.replicate bnd none, st.2.1 + k, true) else (st.1, st.2.1 + k, st.2.2)
+  | .ellipsis => st
 
 /-- NumPy: source axis of every result axis.  Integers are advanced indices as soon as an array index is
     present; the broadcast dimensions replace the advanced block when all advanced indices are adjacent, and
@@ -111,18 +128,7 @@ def numpyAxes (rank : Nat) (index : List Ix) : Option (List (Option Nat)) :=
     -- that stands for no axis at all) between two advanced components separates them
     let advPos := (index.zipIdx.filter fun p => isAdv p.1).map (·.2)
     let adjacent := advPos == (List.range advPos.length).map (advPos.headD 0 + ·)
-    let step (st : List (Option Nat) × Nat × Bool) (c : Ix) : List (Option Nat) × Nat × Bool :=
-      let (res, src, placed) := st
-      match c with
-      | .slice => (res ++ [some src], src + 1, placed)
-      | .none => (res ++ [none], src, placed)
-      | .int => if hasArr then
-                  (if adjacent && !placed then (res ++ List.replicate bnd none, src + 1, true) else (res, src + 1, placed))
-                else (res, src + 1, placed)
-      | .arr _ _ => if adjacent && !placed then (res ++ List.replicate bnd none, src + 1, true) else (res, src + 1, placed)
-      | .mask k => if adjacent && !placed then (res ++ List.replicate bnd none, src + k, true) else (res, src + k, placed)
-      | .ellipsis => (res, src, placed)
-    let (res, _, _) := idx.foldl step ([], 0, false)
+    let res := (idx.foldl (npStep hasArr adjacent bnd) ([], 0, false)).1
     if hasArr && !adjacent then some (List.replicate bnd none ++ res) else some res
 
 def optIn (l : List Nat) : Option Nat → Bool
